@@ -11,6 +11,7 @@ pub mod validator_parser;
 use crate::models::{ChannelInfo, CommandInfo, EventInfo, StructInfo};
 use std::collections::{HashMap, HashSet};
 use std::path::{Path, PathBuf};
+use syn::ext::IdentExt;
 
 use ast_cache::AstCache;
 use channel_parser::ChannelParser;
@@ -248,14 +249,14 @@ impl CommandAnalyzer {
             match item {
                 syn::Item::Struct(item_struct) => {
                     if self.struct_parser.should_include_struct(item_struct) {
-                        let struct_name = item_struct.ident.to_string();
+                        let struct_name = item_struct.ident.unraw().to_string();
                         self.dependency_graph
                             .add_type_definition(struct_name, file_path.to_path_buf());
                     }
                 }
                 syn::Item::Enum(item_enum) => {
                     if self.struct_parser.should_include_enum(item_enum) {
-                        let enum_name = item_enum.ident.to_string();
+                        let enum_name = item_enum.ident.unraw().to_string();
                         self.dependency_graph
                             .add_type_definition(enum_name, file_path.to_path_buf());
                     }
